@@ -251,6 +251,14 @@ def c11_3(rep, ix):
             evald = s.targets[0].id
     if evald is None:
         raise Inconclusive("exitStatement: evaluated mode value not bound to a name")
+    # what is checked and stored is the evaluated value itself: the name is bound once per mode (a conversion in between - rounding a float that
+    # is close to a whole number, int() of a string - would make the check pass for values the property says are refused)
+    rebinds = [s for s in ast.walk(loop) if isinstance(s, (ast.Assign, ast.AugAssign)) and any(isinstance(x, ast.Name) and x.id == evald and isinstance(x.ctx, ast.Store)
+                                                                                                 for t_ in (s.targets if isinstance(s, ast.Assign) else [s.target]) for x in ast.walk(t_))
+               and not (isinstance(s, ast.Assign) and isinstance(s.value, ast.Call) and u(s.value.func) == "_expression")]
+    for s_ in rebinds:
+        rep.bad(R, ix.site(f, s_), "the mode value that is checked and stored is the evaluated expression itself", "`%s` replaces it by a converted value before the integer check"
+                % " ".join(u(s_).split())[:70], key="mode|converted|" + " ".join(u(s_).split())[:50])
     stores = [s for s in ast.walk(loop) if isinstance(s, ast.Assign) and isinstance(s.targets[0], ast.Subscript) and u(s.value) == evald]
     appends = [s for s in ast.walk(loop) if isinstance(s, ast.Expr) and isinstance(s.value, ast.Call) and isinstance(s.value.func, ast.Attribute) and s.value.func.attr == "append" and
                s.value.args and u(s.value.args[0]) == evald]
